@@ -5,6 +5,7 @@ import (
 	"fmt"
 	"reflect"
 	"strings"
+	"time"
 
 	"github.com/GuanceCloud/platypus/pkg/errchain"
 	"github.com/GuanceCloud/platypus/pkg/token"
@@ -51,10 +52,46 @@ func (c17) Plan(tier string, seed int64) []mon.Workload {
 		{Name: "lookup", N: seqCount(3, c17TextLen(tier)), Exhaustive: true},
 		{Name: "error-positions", N: b},
 		{Name: "rendering", N: 2000},
+		{Name: "expression-errors", N: int64(len(c17ErrExprs) * len(c17ErrCtx)), Exhaustive: true},
 	}
 }
 
 var c17Alpha = []string{"a", "\n", "é"}
+
+// expression-errors: every kind of run-time fault an expression can raise,
+// in every statement context, with layouts that put the faulting
+// sub-expression on its own line. l = [1, 2, 3], s = "text", m = {"k": 1},
+// b = true, f = 1.5, n = nil, z = 0.
+var c17ErrExprs = []string{
+	"l[:b]", "l[b:]", "l[::b]", "l[1:f]", "l[f:2]", "l[0:2:s]", "l[::z]", "s[:b]", "s[b:2:1]", "s[::f]", "n[0:1]", "b[:]", "m[1:2]",
+	"l[5]", "l[-4]", "l[s]", "l[f]", "m[1]", "m[\"k\"][0]", "s[0]", "n[0]", "l[0][0]", "l[b]",
+	"1 / z", "7 % z", "f % 2", "s - 1", "s + 1", "l + l", "n * 2", "-s", "-l", "+n", "s < 1", "l >= m", "1 && b", "s || b", "n && b",
+	"1 in 5", "1 in s", "b in m", "boom()", "len(boom())", "[1, boom()]", "{\"k\": boom()}", "{f: 1}", "l[boom()]", "l[1:boom()]",
+}
+var c17ErrCtx = []string{"x = %s", "p(%s)", "if %s {\n  p(1)\n}", "for e in %s {\n  p(e)\n}", "for i = 0; %s; i = i + 1 {\n  break\n}", "x = [0, %s]",
+	"x = 1 +\n   (%s)", "if true {\n  for j = 0; j < 1; j = j + 1 {\n    y = %s\n  }\n}", "add_key(k, %s)", "l[0] = %s", "x = 0\nx += %s", "p(1,\n  %s)"}
+
+func c17ErrProgram(i int64) progCase {
+	e := c17ErrExprs[int(i)/len(c17ErrCtx)]
+	ctx := c17ErrCtx[int(i)%len(c17ErrCtx)]
+	text := "l = [1, 2, 3]\ns = \"text\"\nm = {\"k\": 1}\nb = true\nf = 1.5\nn = nil\nz = 0\n# héllo 世界\n" + strings.ReplaceAll(ctx, "%s", e) + "\np(\"after\")\n"
+	o := drive.Parse("errexpr", text)
+	if o.Err != nil {
+		return progCase{Src: ""} // a literal zero divisor etc. is rejected by the parser
+	}
+	l, err := gt.FromStmts(o.Stmts)
+	if err != nil {
+		panic(err)
+	}
+	stmts := gt.CloneStmts(l)
+	lay := &gt.Layout{R: gen.Rand(i*31 + 7), Breaks: i%2 == 0, Multibyte: true}
+	if i%3 == 0 {
+		lay = nil
+	}
+	pc := progCase{Stmts: stmts, Src: gt.Print(stmts, lay)}
+	pc.Points = []*ref.Point{ref.NewPoint("m", nil, map[string]any{"message": "msg"}, time.Unix(1700000000, 0))}
+	return pc
+}
 
 func (k c17) Describe(c *mon.Ctx, workload string, i int64) any {
 	switch workload {
@@ -111,7 +148,11 @@ func (k c17) Run(c *mon.Ctx, workload string, i int64) {
 	case "lookup":
 		k.runLookup(c, k.lookupText(c, i))
 	case "error-positions":
-		k.runErr(c)
+		k.runErr(c, k.errCase(c))
+	case "expression-errors":
+		if pc := c17ErrProgram(i); pc.Src != "" {
+			k.runErr(c, pc)
+		}
 	case "rendering":
 		k.runRender(c)
 	}
@@ -266,8 +307,7 @@ func (k c17) runLookup(c *mon.Ctx, text string) {
 	}
 }
 
-func (k c17) runErr(c *mon.Ctx) {
-	pc := k.errCase(c)
+func (k c17) runErr(c *mon.Ctx, pc progCase) {
 	const name = "c17.p"
 	script, err := drive.LoadV1One(name, pc.Src)
 	info := map[string]any{"source": pc.Src}
@@ -275,7 +315,7 @@ func (k c17) runErr(c *mon.Ctx) {
 		c.Count("rejected_at_load", 1)
 		return
 	}
-	prog := &ref.Program{Scripts: map[string][]*gt.T{name: pc.Stmts}, Funcs: ref.ProbeFuncs()}
+	prog := &ref.Program{Scripts: map[string][]*gt.T{name: pc.Stmts}, Funcs: ref.Merge(ref.ProbeFuncs(), ref.PointFuncs())}
 	mp := pc.Points[0]
 	mo := ref.Run(prog, name, mp.Clone(), modelBudget)
 	if mo.TooBig || mo.Unspecified != "" || mo.Budget || mo.Shared.MapOrderDependent {
